@@ -509,6 +509,14 @@ var c09Helpers_ = []c09Helper{
 		it := c09Hist.Fetch(ctx, history.Query{ID: "q2"}, c09To, s)
 		return drain(it.Next, it.Err, it.Close)
 	}},
+	{"history.Handler.Fetch-slow-consumer", func(ctx context.Context, s *xmpp.Session) error {
+		// the application looks at the iterator only after its context has ended; results that arrived meanwhile wait in the handler
+		cctx, cancel := context.WithTimeout(ctx, 2*time.Second)
+		defer cancel()
+		it := c09Hist.Fetch(cctx, history.Query{ID: "q3"}, c09To, s)
+		simrt.Sleep(3 * time.Second)
+		return drain(it.Next, it.Err, it.Close)
+	}},
 	{"UnmarshalIQ", func(ctx context.Context, s *xmpp.Session) error {
 		var v struct {
 			XMLName xml.Name `xml:"jabber:iq:version query"`
@@ -565,7 +573,16 @@ func c09Helpers(rc *RC) {
 	if h.name == "history.Fetch" && ch.Chance("workload", 1, 2) {
 		extra = mutate(rc, c09Incoming[17], ch.Int("workload", 3), true)
 	}
-	rc.Describe("helper=%s mode=%d reply=%q extra=%q", h.name, mode, clip(reply, 300), clip(extra, 200))
+	silentAfterExtra := false
+	if strings.HasPrefix(h.name, "history.Handler.Fetch") && ch.Chance("workload", 2, 3) {
+		qid := map[string]string{"history.Handler.Fetch": "q2", "history.Handler.Fetch-slow-consumer": "q3"}[h.name]
+		extra = strings.Repeat(strings.Replace(c09Incoming[17], "queryid='q1'", "queryid='"+qid+"'", 1), 1+ch.Int("workload", 3))
+		// the archive may take its time with the final result
+		silentAfterExtra = ch.Chance("workload", 1, 2)
+	}
+	// some applications pass a context that never ends: then only the library's own progress ends the call
+	noDeadline := ch.Chance("workload", 1, 3) && !silentAfterExtra
+	rc.Describe("helper=%s mode=%d nodeadline=%v reply=%q extra=%q", h.name, mode, noDeadline, clip(reply, 300), clip(extra, 200))
 	rc.CaseKey = "helper:" + h.name
 	answered := 0
 	peer := rc.Spawn("peer", func() {
@@ -584,6 +601,9 @@ func c09Helpers(rc *RC) {
 					if ty := x.Attr("type"); ty == "get" || ty == "set" {
 						if extra != "" {
 							e.PeerWrite(extra)
+							if silentAfterExtra {
+								simrt.Sleep(4 * time.Second)
+							}
 						}
 						answered++
 						if answered > 6 {
@@ -608,6 +628,9 @@ func c09Helpers(rc *RC) {
 	hdone := false
 	ht := rc.Spawn("helper", func() {
 		ctx, cancel := context.WithTimeout(e.Ctx, 10*time.Second)
+		if noDeadline {
+			ctx, cancel = context.WithCancel(e.Ctx)
+		}
 		defer cancel()
 		herr = h.call(ctx, e.Sess)
 		hdone = true
